@@ -642,11 +642,22 @@ func c15(r *mon.Run) {
 	// the two sides differ exactly when evaluating E changed what the siblings see
 	hbBase := c06BaseDoc()
 	hbs := c06HandBacks(false)
+	// flattens and projections that start from a list of the document (whatever reuses the first inner list, or hands an uncopied
+	// list on, shows when two of them meet in one evaluation), arithmetic over a list another function has just sorted
+	{
+		f, ch := gen.Field, gen.Chain
+		hbs = append(hbs, ch(gen.MultiList(ch(f("aa"), gen.StIndex(0)), f("an")), gen.StFlatten()), ch(f("aa"), gen.StFlatten()), ch(gen.MultiList(ch(f("aa"), gen.StIndex(1)), f("as"), ch(f("aa"), gen.StIndex(0))), gen.StFlatten()),
+			ch(gen.MultiList(f("an"), f("an")), gen.StFlatten()), ch(f("aa"), gen.StListStar()), ch(f("an"), gen.StListStar()), ch(gen.MultiList(f("an")), gen.StFlatten()), ch(f("ao"), gen.StListStar(), gen.StField("an"), gen.StFlatten()),
+			gen.Func("sort", f("bign")), gen.Func("sort", f("an")), gen.Func("sum", f("bign")), gen.Func("avg", f("an")), gen.Func("max", f("bign")), gen.Func("sort", f("as")), gen.Func("join", gen.Raw(","), f("as")), gen.Func("sort", f("cancel")), gen.Func("sum", f("cancel")), gen.Func("reverse", gen.Func("sort", f("cancel"))))
+	}
+	hbBase["cancel"] = []interface{}{float64(1e16), float64(-1e16), float64(1), float64(3), float64(-7)}
 	readers := func() []*gen.Expr {
-		return []*gen.Expr{gen.Field("an"), gen.Field("as"), gen.Field("ao"), gen.Field("o"), gen.Field("bign"), gen.Chain(gen.Field("ao"), gen.StIndex(0), gen.StField("s"))}
+		return []*gen.Expr{gen.Field("an"), gen.Field("as"), gen.Field("ao"), gen.Field("o"), gen.Field("bign"), gen.Chain(gen.Field("ao"), gen.StIndex(0), gen.StField("s")),
+			gen.Chain(gen.Field("aa"), gen.StFlatten()), gen.Chain(gen.MultiList(gen.Chain(gen.Field("aa"), gen.StIndex(0)), gen.Field("as")), gen.StFlatten()), gen.Func("sum", gen.Field("cancel")), gen.Func("sum", gen.Field("bign")), gen.Func("avg", gen.Field("an")), gen.Func("join", gen.Raw(""), gen.Field("as"))}
 	}
 	hbCtx := []func(e *gen.Expr) *gen.Expr{
 		func(e *gen.Expr) *gen.Expr { return gen.MultiList(append([]*gen.Expr{e}, readers()...)...) },
+		func(e *gen.Expr) *gen.Expr { return gen.MultiList(append(append(readers()[6:], e), readers()[6:]...)...) },
 		func(e *gen.Expr) *gen.Expr {
 			return gen.MultiHash([]gen.Key{{Name: "e"}, {Name: "a"}, {Name: "s"}, {Name: "x"}, {Name: "o"}}, []*gen.Expr{e, gen.Field("an"), gen.Field("as"), gen.Field("ao"), gen.Field("o")})
 		},
@@ -668,8 +679,8 @@ func c15(r *mon.Run) {
 				return
 			}
 			T1, T2 := C(gen.Clone(E)), C(gen.LitVal(oe.V))
-			o1 := via(i, gen.Spell(T1), mon.DeepCopy(hbBase))
-			o2 := via(i, gen.Spell(T2), mon.DeepCopy(hbBase))
+			o1 := via(i, gen.Spell(T1), withSpare(hbBase)) // (every list with spare capacity, as a decoder leaves them)
+			o2 := via(i, gen.Spell(T2), withSpare(hbBase))
 			if o1.Panicked || o2.Panicked || !sameOutcome(o1, o2) {
 				r.Violate(&mon.Violation{Workload: "substitution-next-to-readers-of-the-same-members", Index: i, API: "Search", Expr: gen.Spell(T1), Doc: hbBase,
 					Expected: "same as with the sub-expression " + gen.Spell(E) + " replaced by the literal of its value: " + clipStr(o2.String(), 600), Observed: clipStr(o1.String(), 600), Class: "substitution law next to readers of the same members"})
